@@ -236,6 +236,44 @@ def make_histories(n, texts, rules, stream):
     return out
 
 
+def sibling(text, r):
+    """(text, variant): the same module with one function made effectful, made trivial or removed, everything else verbatim. Whatever the tool
+    remembers about the unchanged definitions (a memo keyed on part of the program, a set that grows) is wrong for one of the two."""
+    import copy
+
+    try:
+        tree = ast.parse(text)
+    except (SyntaxError, ValueError):
+        return None
+    defs = [n for n in ast.walk(tree) if isinstance(n, (ast.FunctionDef, ast.ClassDef))]
+    if len(defs) < 2 and not any(isinstance(n, ast.Call) for n in ast.walk(tree)):
+        return None
+    if not defs:
+        return None
+    target = r.choice(defs)
+    variant = copy.deepcopy(tree)
+    twin = next(n for n in ast.walk(variant) if isinstance(n, type(target)) and n.name == target.name and n.lineno == target.lineno)
+    how = r.choice(["effect", "trivial", "removed"]) if isinstance(target, ast.FunctionDef) else r.choice(["effect", "removed"])
+    if how == "effect":
+        twin.body.insert(0, ast.parse("print('sibling effect')").body[0])
+    elif how == "trivial":
+        twin.body[:] = ast.parse("return None").body
+    else:
+        for parent in ast.walk(variant):
+            for field in ("body", "orelse", "finalbody"):
+                block = getattr(parent, field, None)
+                if isinstance(block, list) and twin in block:
+                    block.remove(twin)
+                    if not block:
+                        block.append(ast.Pass())
+    try:
+        a, b = ast.unparse(tree) + "\n", ast.unparse(ast.fix_missing_locations(variant)) + "\n"
+        ast.parse(b)
+    except Exception:
+        return None
+    return (a, b, how) if a != b else None
+
+
 def main() -> int:
     from .. import hooks, pool
     from ..gen import corpus, hostile
@@ -272,6 +310,22 @@ def main() -> int:
         for pat, rp in PATTERNS[:5]:
             k += 1
             hist.append({"id": f"pair{k}", "history": [{"kind": "format", "text": a, "options": {}}], "request": {"kind": "findall", "pattern": pat, "repl": rp, "text": FIXED_TEXTS[0]}})
+    # sibling modules: formatted one after the other in one process, in both orders, with and without safe
+    rs = env.rng(PROP, "siblings")
+    made = 0
+    for t in rs.sample(texts, len(texts)):
+        sib = sibling(t, rs)
+        if not sib or len(sib[0]) > 3000:
+            continue
+        a, b, how = sib
+        for first, second in ((a, b), (b, a)):
+            k += 1
+            opts = rs.choice([{}, {}, {"safe": True}])
+            hist.append({"id": f"sibling{k}:{how}", "history": [{"kind": "format", "text": first, "options": rs.choice([{}, opts])}],
+                         "request": {"kind": "format", "text": second, "options": opts}})
+        made += 1
+        if made >= (150 if thorough else 45):
+            break
     tot_h, tot_t = {}, {}
     with pool.Pool() as p, pool.Pool(oneshot=True) as fresh:
         verdict.run_witnesses(v, p)
